@@ -13,6 +13,7 @@ ops (JSON):
   {"op":"compose","inst":i,"inputs":[site|param],"outputs":[site],"vals":[enc]}   compose + call the result
 """
 import asyncio
+import os
 import copy
 from collections import Counter
 from typing import Any, Dict, List, Optional, Tuple
@@ -23,6 +24,21 @@ from .prog import dec
 from .schedcase import Model, selection
 
 Finding = Tuple[str, str]
+
+
+def draw_quietly(dag: Any, include_args: bool = False) -> None:
+    """dag.draw() into a scratch file; a missing graphviz executable is not this harness's business.  Drawing is a
+    read-only operation: whatever it does must leave the DAG as it was (judged by the callers)."""
+    import shutil
+    import tempfile
+
+    d = tempfile.mkdtemp(prefix="vlib_draw_")
+    try:
+        dag.draw(include_args=include_args, filename=os.path.join(d, "g"), view=False)
+    except Exception:  # noqa: BLE001 - e.g. graphviz.ExecutableNotFound
+        pass
+    finally:
+        shutil.rmtree(d, ignore_errors=True)
 
 
 class Inst:
@@ -174,6 +190,16 @@ class Interp:
                 d = copy.deepcopy(src.b.dag)
             except BaseException as e:  # noqa: BLE001
                 return [("copy-raised", f"deepcopy raised {type(e).__name__}: {e}")]
+            # independent setup state: a mutable setup result held by the copy is a copy, not the original's object
+            try:
+                ids = src.b.node_ids()
+                shared = [s for s in self.M.sites if self.M.spec[s].get("setup") and ids[s] in src.b.dag.results
+                          and isinstance(src.b.dag.results[ids[s]], (list, dict, set))
+                          and d.results.get(ids[s]) is src.b.dag.results[ids[s]]]
+            except Exception:  # noqa: BLE001 - a tree with another layout: not judged here
+                shared = []
+            if shared:
+                return [("copy-shares-setup-state", f"after deepcopy the copy holds the very same (mutable) setup results as instance {op['inst']} for {shared}: a change made through one instance shows in the other")]
             self.insts.append(Inst(prog.Built(self.P, d, src.b.xns, src.b.subs), dict(src.pre),
                                    copy.deepcopy(src.shadow) if src.shadow is not None else None))
             j = len(self.insts) - 1
@@ -236,6 +262,9 @@ class Interp:
             return []
         if k == "compose":
             return self._compose(op, inst, i)
+        if k == "draw":
+            draw_quietly(inst.b.dag, bool(op.get("include_args")))
+            return []
         raise ValueError(k)
 
     def _cancelrun(self, op: Dict[str, Any]) -> List[Finding]:
